@@ -500,12 +500,12 @@ Definition eval_expr (e : env) (x : string) : option val :=
   else if seq x "error.IFC" then Some (VInt err_IFC)
   else if seq x "common_scalars or common_arrays or preserve_all" then
     match elookup "common_scalars" e, elookup "common_arrays" e, elookup "preserve_all" e with
-    | Some a, Some b, Some c => Some (VBool (truthy a || truthy b || truthy c))
+    | Some a, Some b, Some c => Some (VBool (truthy c || (truthy a || truthy b)))   (* same truth value *)
     | _, _, _ => None
     end
   else if seq x "self.program.protected and merge" then
     match elookup "self.program.protected" e, elookup "merge" e with
-    | Some a, Some b => Some (VBool (truthy a && truthy b))
+    | Some a, Some b => Some (VBool (truthy b && truthy a))      (* same truth value *)
     | _, _ => None
     end
   else if seq x "expr < 0" then
